@@ -74,6 +74,7 @@ Definition entry_env (gl col row entry : fields) : tenv :=
       TableRange expr/ir/TableIR.scala:2174 (typ :2187)      TableKeyBy :2106 (typ :2114) + TypeCheck.scala:632
       TableMapRows :2418 (typ :2421) + TypeCheck:661         TableMapGlobals :2431 (typ :2434)
       TableFilter :2194 (typ = child.typ)                    TableOrderBy :2579 (typ :2593: key = FastSeq())
+      TableUnion :2465 (typ :2471 = first child's) + TypeCheck:686-688 (same rowType and key in every child)
       TableLeftJoinRightDistinct :2366 (structInsert) + TypeCheck:641 (isPrefixOf, types/virtual/TBaseStruct.scala:71)
       TableIntervalJoin :2315 (typ :2323-2326, TStruct.appendKey types/virtual/TStruct.scala:230; no TypeCheck case: the key
         requirement is read off lowering/LowerTableIR.scala:1963-)
@@ -82,7 +83,7 @@ Definition entry_env (gl col row entry : fields) : tenv :=
       MatrixMapRows MatrixIR.scala:696, MatrixMapCols :712, MatrixMapEntries :665, MatrixMapGlobals :730, MatrixKeyRowsBy :680
         + TypeCheck:708, all + the MatrixType constructor assertions (keys within their struct, MatrixType.scala:78-96)
       MatrixAnnotateRowsTable :782 (appendKey) + TypeCheck:700-707
-    (TableJoin TableIR.scala:2267 + TypeCheck:621 and MatrixAnnotateColsTable MatrixIR.scala:760 + TypeCheck:698 +
+    (TableKeyByAndAggregate TableIR.scala:2542-2545, n-ary TableUnion, TableJoin TableIR.scala:2267 + TypeCheck:621 and MatrixAnnotateColsTable MatrixIR.scala:760 + TypeCheck:698 +
     LowerMatrixIR.scala:236-255 are in the Python checker c36_tlang.strict_rel only.) *)
 Fixpoint strict_type (x : rir) : option rty :=
   match x with
